@@ -4,7 +4,7 @@
    [rA, rB) with score rX;  psum l a b = sum of l[a..b). *)
 From Coq Require Import ZArith QArith List Bool Sorting.Sorted.
 Import ListNotations.
-Require Import Py Pairing Core Psum FacProofs FacSegs.
+Require Import Py Pairing Core Psum FacProofs FacSegs FacConverse FacComplete.
 Open Scope Z_scope.
 
 (* seg_ok l r:  rA < rB <= |l|,  rX = psum l rA rB >= ms,  every non-empty prefix sum is positive and more than
@@ -42,6 +42,20 @@ Theorem C13_empty_iff P ps peak : 0 < MS P ->
   (factory_ranges (MS P) (BS P) (map sc ps) = [] <-> get_segments P ps peak = [seg_create [] peak]).
 Proof. exact (empty_iff P ps peak). Qed.
 
+(* completeness in the regime of the default parameters (minScore 1000 <= breakSegmentThreshold 1200): there the empty segment is
+   returned IF AND ONLY IF no run of the list meets the clauses - a qualifying run anywhere forces at least one returned segment *)
+Theorem C13_complete ms bs l r : 0 < ms -> ms <= bs -> seg_ok ms bs l r -> factory_ranges ms bs l <> [].
+Proof. exact (fun H1 H2 => factory_complete ms bs H1 H2 l r). Qed.
+Theorem C13_empty_iff_no_run ms bs l : 0 < ms -> ms <= bs -> (factory_ranges ms bs l = [] <-> forall r, ~ seg_ok ms bs l r).
+Proof. exact (fun H1 H2 => factory_empty_iff_no_run ms bs H1 H2 l). Qed.
+
+(* Observation O1 - NOT a clause of C13, stated so that the exact strength of the last sentence is visible: the property says "if no run
+   qualifies a single empty segment is returned"; the converse is false of the code (a rejected currentSegment is not reset after a break
+   and its stale score hides later runs): a run meeting every clause can exist while nothing is returned.  No check demands the converse (for ms <= bs it is a theorem: C13_complete). *)
+Theorem C13_converse_refuted :
+  exists ms bs l r, 0 < ms /\ seg_ok ms bs l r /\ seg_max bs l r /\ factory_ranges ms bs l = [].
+Proof. exact factory_converse_refuted. Qed.
+
 (* non-vacuity: two segments separated by a break, thresholds at equality (score = ms, drop = bs) *)
 Example C13_nonvacuous : factory_ranges 3 2 [2; 1; -2; 3; -1; 1; -4; 3] = [(0%nat, 2%nat, 3); (3%nat, 4%nat, 3); (7%nat, 8%nat, 3)].
 Proof. vm_compute. reflexivity. Qed.
@@ -52,3 +66,6 @@ Print Assumptions C13_ends_positive.
 Print Assumptions C13_segments.
 Print Assumptions C13_segment_score.
 Print Assumptions C13_empty_iff.
+Print Assumptions C13_complete.
+Print Assumptions C13_empty_iff_no_run.
+Print Assumptions C13_converse_refuted.
